@@ -53,6 +53,7 @@ Proof.
   - reflexivity.
   - intros s n H. discriminate H.
   - intros i Hi. simpl in Hi. lia.
+  - intros k v [].
 Qed.
 
 Lemma WFc_root0 : WFc root0.
@@ -71,7 +72,7 @@ Proof.
   assert (Hs : size (empty_layer :: l :: p) = size (l :: p)) by (apply (size_extend (l :: p))).
   assert (Hh : forall s, get_head (empty_layer :: l :: p) s = get_head (l :: p) s) by reflexivity.
   assert (Hr : forall i, resolve (empty_layer :: l :: p) i = resolve (l :: p) i) by (intros; apply (resolve_extend (l :: p)); exact Hc).
-  destruct I as [rok h0 h1 h3 w3 cl fresh err hres hcall].
+  destruct I as [rok h0 h1 h3 w3 cl fresh err hres hcall keys].
   constructor.
   - split; [intros k v []|exact Hc].
   - intros s n Hn. rewrite Hh in Hn. rewrite Hs. eapply h0; eauto.
@@ -83,6 +84,7 @@ Proof.
   - reflexivity.
   - intros s n Hn. rewrite Hh in Hn. rewrite Hr. apply (hres _ _ Hn).
   - intros i Hi. rewrite Hs in Hi. rewrite Hg. eapply call_ok_ext; [exact Hh|exact Hr|]. apply hcall. exact Hi.
+  - intros k v [].
 Qed.
 
 Lemma WFc_extend : forall c, c <> [] -> WFc c -> WFc (extend c).
